@@ -492,6 +492,13 @@ def evalTls (p : Pending) (glob : Oracle) (obsToks : List String) : String :=
     s!"RES {p.prop} {p.id} eq={b ok} hm=1 hi={b ok} miss=0 crash={b (obsToks.contains "crash" || obsToks.contains "hang")}" ++
       (if ok then "" else " | x:44:01 | " ++ " ".intercalate obsToks)
   else
+  if p.toks.contains "slowread" then
+    -- a slow reader gets the whole response, however long (virtual time) it pauses
+    let ok := obsToks.contains "x:46:01" && !obsToks.contains "crash" && !obsToks.contains "hang"
+    let b (x : Bool) := if x then "1" else "0"
+    s!"RES {p.prop} {p.id} eq={b ok} hm=1 hi={b ok} miss=0 crash={b (obsToks.contains "crash" || obsToks.contains "hang")}" ++
+      (if ok then "" else " | x:46:01 | " ++ " ".intercalate obsToks)
+  else
   if p.toks.contains "stall" then
     -- liveness scenario: the second client must be served while the first one does not read
     let ok := obsToks.contains "x:43:01" && !obsToks.contains "crash" && !obsToks.contains "hang"
